@@ -194,6 +194,7 @@ def float_compare(triples, tol=1e-7):
 # ----------------------------------------------------------------------------------------
 # generic driver: explore all paths of a scenario symbolically, then cross-check with floats
 # ----------------------------------------------------------------------------------------
+VACUITY = {"on": True, "timeout_ms": 4000}
 REAL_EXC = (AssertionError, ValueError, IndexError, KeyError, TypeError, AttributeError, ZeroDivisionError,
             FloatingPointError, RuntimeError, NotImplementedError, StopIteration, OverflowError)
 
@@ -234,6 +235,14 @@ def run_scenario(res, scenario, max_paths=64, max_decisions=60, timeout_ms=20000
             v, model, _ = solve.prove(goal, timeout_ms=timeout_ms)
             res.ob(v, "%sside:%s:%s" % (tag, kind, info),
                    {"kind": "model", "env": solve.model_env(model)} if v == "sat" else None)
+        # vacuity guard: the assumptions together with this path's condition must be satisfiable (reachability witness);
+        # `unsat` means every obligation above was discharged vacuously
+        if VACUITY["on"]:
+            v, _, _ = solve.check_sat(solve.expanded_assumptions() + [core.expand_defs(c) for c in ST.pathcond], timeout_ms=VACUITY["timeout_ms"])
+            res.vacuity = getattr(res, "vacuity", {"sat": 0, "unsat": 0, "unknown": 0})
+            res.vacuity[v] = res.vacuity.get(v, 0) + 1
+            if v == "unsat":
+                res.unknown.append({"what": tag + "VACUOUS: assumptions and path condition are contradictory on a path that discharged obligations"})
         store.append((list(ST.pathcond), triples, dict(ST.evar_of), dict(ST.roots), dict(ST.defs)))
         return len(triples)
 
